@@ -9,7 +9,7 @@ def plan(tier, seed):
     jobs = [J("tsp", num_loc=3), J("tsp", num_loc=4, loc_distribution="cluster", n_cluster=2), J("tsp", num_loc=4, loc_distribution="mixed", n_cluster_mix=1), J("cvrp", num_loc=3), J("cvrp", num_loc=3, capacity=10.0), J("cvrp", num_loc=3, capacity=12.5), J("op", num_loc=3, prize_type="unif"), J("op", num_loc=3, prize_type="const"),
             J("pctsp", num_loc=3), J("pdp", num_loc=4), J("pdp", num_loc=3), J("mdcpdp", num_loc=4, num_depot=2), J("mdcpdp", num_loc=2, num_depot=3, depot_mode="single"), J("mtsp", num_loc=4), J("svrp", num_loc=3), J("atsp", num_loc=3), J("atsp", num_loc=3, tmat_class=False),
             J("smtwtp", num_job=3), J("ffsp", num_stage=2, num_machine=2, num_job=2), J("flp", num_loc=3, to_choose=2), J("mcp", num_items=3, num_sets=3, min_size=1, max_size=2, n_sets_to_choose=2),
-            J("cvrptw", B=1, num_loc=2), J("mtvrp", num_loc=3, variant_preset="all"), J("mtvrp", num_loc=3, variant_preset="vrptw"), J("mtvrp", num_loc=3, variant_preset="ovrpbltw"), J("mtvrp", num_loc=3, variant_preset="single_feat"), J("mtvrp", num_loc=3, variant_preset="single_feat_otw"),
+            J("cvrptw", B=1, num_loc=2), J("mtvrp", num_loc=3, variant_preset="all"), J("mtvrp", num_loc=3, variant_preset="vrptw"), J("mtvrp", num_loc=3, variant_preset="ovrpbltw"), J("mtvrp", num_loc=3, variant_preset="vrptw", speed=0.75), J("mtvrp", num_loc=3, variant_preset="vrptw", speed=2.0), J("mtvrp", num_loc=3, variant_preset="single_feat"), J("mtvrp", num_loc=3, variant_preset="single_feat_otw"),
             J("dpp", B=2, size=3, num_keepout_min=1, num_keepout_max=4, max_decaps=2), J("mdpp", B=1, size=3, num_keepout_min=1, num_keepout_max=3, num_probes_min=1, num_probes_max=3, max_decaps=2),
             J("fjsp", B=1, num_jobs=2, num_machines=2, min_ops_per_job=1, max_ops_per_job=2, min_processing_time=1, max_processing_time=3), J("fjsp", B=1, num_jobs=2, num_machines=2, min_ops_per_job=1, max_ops_per_job=2, same_mean_per_op=False), J("jssp", B=1, num_jobs=2, num_machines=2)]
     if tier == "thorough":
